@@ -36,8 +36,8 @@ impl StepOracle for C07Oracle {
                 allowed.insert(w.pairs[*pair].addr.to_string());
                 addressed_pairs.push(*pair);
             }
-            Call::Cw20 { token, msg } => {
-                allowed.insert(token.clone());
+            Call::Cw20 { msg, .. } => {
+                // the token contract only keeps the books: its own account is NOT a party to the operation
                 if let cw20::Cw20ExecuteMsg::Send { contract, .. } = msg {
                     allowed.insert(contract.clone());
                     if let Some(p) = pair_by_addr(w, contract) {
